@@ -16,6 +16,8 @@ import (
 	"github.com/nautilus/gateway"
 	"github.com/nautilus/graphql"
 	"github.com/vektah/gqlparser/v2"
+	"github.com/vektah/gqlparser/v2/ast"
+	"github.com/vektah/gqlparser/v2/parser"
 )
 
 func init() { props["C19"] = runC19 }
@@ -77,6 +79,43 @@ func faultFor(salt uint32, pct int, c *Call) string {
 		return FaultNone
 	}
 	return []string{FaultTransport, FaultPartial, FaultErrsNull}[v%3]
+}
+
+// c19SelectsNoID: no field named or aliased id, no directive, no variable called id in the document
+func c19SelectsNoID(text string) bool {
+	d, err := parser.ParseQuery(&ast.Source{Input: text})
+	if err != nil {
+		return false
+	}
+	ok := true
+	var walk func(ss ast.SelectionSet)
+	walk = func(ss ast.SelectionSet) {
+		for _, s := range ss {
+			switch x := s.(type) {
+			case *ast.Field:
+				if x.Name == "id" || x.Alias == "id" || len(x.Directives) > 0 {
+					ok = false
+				}
+				walk(x.SelectionSet)
+			case *ast.InlineFragment:
+				if len(x.Directives) > 0 {
+					ok = false
+				}
+				walk(x.SelectionSet)
+			case *ast.FragmentSpread:
+				ok = false
+			}
+		}
+	}
+	for _, op := range d.Operations {
+		for _, v := range op.VariableDefinitions {
+			if v.Variable == "id" {
+				ok = false
+			}
+		}
+		walk(op.SelectionSet)
+	}
+	return ok && len(d.Operations) == 1
 }
 
 func (c *CoqFile) c19Data(v interface{}) string {
@@ -189,6 +228,11 @@ func runC19(cfg *runCfg) error {
 		if replay == nil {
 			kn := c20Knobs(r)
 			kn.NamedFrags = false // fragments spanning services are a known planner limitation (see C01)
+			if r.Intn(3) == 0 {
+				// a client that never asks for id, two or three levels deep: whatever id a response
+				// middleware sees at any of the join places was injected
+				kn.NoID, kn.Directives, kn.Depth, kn.Mutation = true, false, 2+r.Intn(2), false
+			}
 			q = genQuery(r, cs.Fed, st, kn)
 			cs.Query = q
 		}
@@ -283,7 +327,14 @@ func runC19(cfg *runCfg) error {
 		}
 		obs := fmt.Sprintf("{| ob_scrub_fails := %s; ob_exec_err := %s; ob_log := [%s]; ob_seen := [%s]; ob_data := %s; ob_err := %s; ob_calls := [%s] |}",
 			coqBool(scrubFails), coqBool(execErr), strings.Join(logs, "; "), strings.Join(seen, "; "), final, errCode, strings.Join(calls, "; "))
-		c.Printf("Eval vm_compute in (\"%d\"%%string, model_agrees [%s] %s, property_holds [%s] %s).\n", id, strings.Join(mws, "; "), obs, strings.Join(mws, "; "), obs)
+		oracle := fmt.Sprintf("property_holds [%s] %s", strings.Join(mws, "; "), obs)
+		if !execErr && c19SelectsNoID(q.Text) {
+			// the client asks for no id anywhere (and uses no directive and no variable called id, which
+			// are known planner limitations, see C04): every id the middlewares see was injected
+			oracle = "andb (" + oracle + ") (ids_removed " + obs + ")"
+			doc.Dist["ids-removed-clause"]++
+		}
+		c.Printf("Eval vm_compute in (\"%d\"%%string, model_agrees [%s] %s, %s).\n", id, strings.Join(mws, "; "), obs, oracle)
 		key, _ := json.Marshal(cs)
 		nresp := 0
 		for _, m := range cs.MWs {
